@@ -55,6 +55,19 @@ class Infra(Exception):
     pass
 
 
+class quiet(object):
+    """Silence the prints of uwg while running real code."""
+    def __enter__(self):
+        import io
+        self._old = sys.stdout
+        sys.stdout = io.StringIO()
+        return self
+
+    def __exit__(self, *a):
+        sys.stdout = self._old
+        return False
+
+
 class Check(object):
     def __init__(self, pid, tier, seed):
         self.pid = pid
